@@ -39,6 +39,10 @@ CHECKS = {
   text="Property-based testing over generated multi-processor machines, stimuli, seeded schedule perturbation (verif-tagged yield hook, GOMAXPROCS 1..16) and concurrency plans (copies of the same machine sharing one Bondmachine, different machines, concurrent SinglePipelineSimulate): the per-tick digest of the complete VM state must equal the solo unperturbed run; the same binary runs under the Go race detector (a report is a violation). Exploration of schedules, not exhaustive. Found D7 and D11 (both fixed in /repo).",
   note="Trusted: digest covers processors' PC/registers/memory/ports/flags/deferred and extra state and all bond registers; the race detector; schedules the hook and GOMAXPROCS cannot provoke are not explored.",
   technique="property-based testing (rapid) with injected-yield schedule fuzzing, differential against the solo run, plus the race detector as sanitizer"),
+ "C12": dict(
+  text="Property-based testing of the Go-subset compiler through its real CLI: grammar-generated programs (register and RAM variables, + * ==, ++/--, if/for/switch, inlined functions, IO, a share of unsupported operators that must be rejected, -mpm workers and channels) are compiled as child processes under a hard deadline for several forced schedule plans (verif-tagged scheduling points + GOMAXPROCS): the compiler must terminate, emit byte-identical assembly and machine JSON across plans, and — where the emitted machine uses faithfully simulated opcodes — write the same output streams as an independent AST evaluator of the source with wrap-around. Found D8 (hang) and a map-order nondeterminism (both fixed) and four miscompilation classes recorded as known findings.",
+  note="Trusted: the reference evaluator harness/c12/ref.go, the hang classifier (goroutine dump), the faithful-opcode list for semantic verdicts. Programs compiling to r2m/m2r/channel opcodes get termination and determinism verdicts only.",
+  technique="grammar-based property testing (rapid) of the real CLI: reference-interpreter differential, schedule fuzzing through verif-tagged hook points, run-to-run byte equality"),
  "C13": dict(
   text="The LIFO/FIFO module rendered by BmStack.WriteHDL for generated configurations is executed by /verif's Verilog interpreter under handshake-abiding agents whose per-cycle choices are generated (rapid) and, for the smallest configurations, enumerated exhaustively with memoisation of (circuit registers, agent states, abstract sequence); every cycle is checked against an abstract sequence: discipline, no accept when full / return when empty, flags, ack discipline, bounded wait. The exhaustive slices that closed (frontier emptied) are listed in the evidence; larger ones are bounded by a state budget and sampled.",
   note="Trusted: /verif's Verilog interpreter (2-state, power-up zero; its expression evaluator is property-tested against math/big, and it is validated on hand-derived traces), the agent protocol model. Exhaustiveness holds only for the named slices.",
@@ -57,13 +61,12 @@ PENDING = {
  "C05": "check under construction (planned: reference interpreter of BASM source vs simulation)",
  "C07": "check under construction (planned: repeated-run byte equality)",
  "C11": "check under construction (planned: save/load round-trip with reflection walk)",
- "C12": "check under construction (planned: Go-subset evaluator vs compiled machine, termination under forced schedules)",
  "C15": "check under construction (planned: rule print/parse round-trip + trace predictor)",
  "C16": "check under construction (planned: independent well-formedness validator over front-end outputs)",
  "C18": "check under construction (planned: lint of generated file sets with /verif's Verilog front end)",
 }
 
-HOOK_COMMITS = ["ab27f8d"]
+HOOK_COMMITS = ["ab27f8d", "598a995"]
 
 def main():
     checks = []
